@@ -471,6 +471,13 @@ def entries():
     def _(W, o):
         return Call(lambda: boo2(W).time_average(0.02, 0.002, False))
 
+    # the two options together: the file must hold what is returned for either way of averaging
+    @reg("static.boo.boo_2d.time_average")
+    def _(W, o):
+        f = o + ".npy"
+        return Call(lambda: boo2(W).time_average(0.02, 0.002, False, f),
+                    files=[(f, "npy", lambda r: r[0], None), (f + ".snapshot_id.dat", "txt1", lambda r: r[1], 0)])
+
     @reg("static.boo.boo_2d.spatial_corr")
     def _(W, o):
         f = o + ".csv"
